@@ -854,3 +854,117 @@ Proof.
   - exists dl. split; [exact Ho|]. split; [|exact Hdd].
     unfold decode. rewrite N.sub_diag in Hdl. exact Hdl.
 Qed.
+
+(* ================= (4) branches land on the start of the intended operation ================= *)
+
+Lemma nth_N_nth_error {A} : forall (l : list A) n, nth_N l n = nth_error l (N.to_nat n).
+Proof.
+  induction l as [|x r IH]; intros n; cbn [nth_N].
+  - destruct (N.to_nat n); reflexivity.
+  - destruct (n =? 0) eqn:E.
+    + assert (n = 0) by lia. subst. reflexivity.
+    + rewrite IH. replace (N.to_nat n) with (S (N.to_nat (n - 1))) by lia. reflexivity.
+Qed.
+
+Lemma decoded_len nf base ex offs dl : decoded nf base ex offs dl -> length dl = length ex /\ length offs = S (length ex).
+Proof. induction 1 as [|o r p offs d dl Hn Hd [IH1 IH2]]; cbn [length]; split; auto. Qed.
+
+Lemma decoded_nth nf base : forall ex offs dl, decoded nf base ex offs dl ->
+  forall k o, nth_error ex k = Some o ->
+  exists p d, nth_error offs k = Some p /\ nth_error dl k = Some (p - base, d) /\ nf p o d.
+Proof.
+  induction 1 as [|o r p offs d dl Hn Hd IH]; intros k o' Hk.
+  - destruct k; discriminate.
+  - destruct k as [|k]; cbn [nth_error] in *.
+    + inversion Hk; subst. exists p, d. auto.
+    + apply IH. exact Hk.
+Qed.
+
+Lemma decoded_starts nf base : forall ex offs dl, decoded nf base ex offs dl ->
+  map (fun p => p - base) offs = map fst dl ++ [last offs 0 - base].
+Proof.
+  induction 1 as [fin|o r p offs d dl Hn Hd IH].
+  - reflexivity.
+  - cbn [map app fst]. rewrite IH. f_equal. f_equal. f_equal.
+    destruct offs as [|x xs]; [apply decoded_len in Hd; destruct Hd; discriminate|reflexivity].
+Qed.
+
+Lemma laid_offsets_ge wr : forall ex pos offs bs fx,
+  laid wr pos ex offs bs fx -> Forall (fun p => pos <= p) offs.
+Proof.
+  induction 1 as [pos|pos o r offs b f bs fx Ho Hl IH].
+  - constructor; [lia|constructor].
+  - constructor; [lia|]. eapply Forall_impl; [|exact IH]. cbv beta. intros a Ha. lia.
+Qed.
+
+(* the start offsets of the decoded operations, then the end of the expression *)
+Definition starts (dl : list (N * dop)) (bs : list byte) : list N := map fst dl ++ [blen bs].
+
+Theorem branches_land_expr dbg e uo refs base ex bs fx :
+  forallb wf_op ex = true -> wf_uoffs uo = true -> forallb decodable ex = true ->
+  base + blen bs < 2 ^ 63 ->
+  write_expr dbg e uo refs base ex = Ok (bs, fx) ->
+  exists dl,
+    decode (dcfg_of e) bs = Some dl /\ length dl = length ex /\
+    (forall k t, nth_error ex k = Some (WoSkip t) ->
+       exists off disp tgt, nth_error dl k = Some (off, DoSkip disp) /\
+                            nth_error (starts dl bs) (N.to_nat t) = Some tgt /\
+                            (Z.of_N off + 3 + disp = Z.of_N tgt)%Z) /\
+    (forall k t, nth_error ex k = Some (WoBranch t) ->
+       exists off disp tgt, nth_error dl k = Some (off, DoBra disp) /\
+                            nth_error (starts dl bs) (N.to_nat t) = Some tgt /\
+                            (Z.of_N off + 3 + disp = Z.of_N tgt)%Z).
+Proof.
+  intros Hwf Huo Hdec Hpos H.
+  destruct (decode_written_expr _ _ _ _ _ _ _ _ Hwf Huo Hdec Hpos H) as [offsets [dl [Ho [Hd Hdd]]]].
+  destruct (write_expr_laid _ _ _ _ _ _ _ _ H) as [offsets' [Ho' Hl]].
+  { change (2 ^ 64) with 18446744073709551616; change (2 ^ 63) with 9223372036854775808 in Hpos; lia. }
+  rewrite Ho in Ho'. inversion Ho'; subst offsets'. clear Ho'.
+  pose proof (laid_offsets_ge _ _ _ _ _ _ Hl) as Hge. rewrite Forall_forall in Hge.
+  pose proof (laid_end _ _ _ _ _ _ Hl) as Hend.
+  pose proof (decoded_starts _ _ _ _ _ Hdd) as Hst. rewrite Hend in Hst.
+  replace (base + blen bs - base) with (blen bs) in Hst by lia.
+  exists dl. split; [exact Hd|]. split; [apply (decoded_len _ _ _ _ _ Hdd)|].
+  assert (Hgen : forall k t o, nth_error ex k = Some o ->
+            forall p d tv disp, nth_error offsets k = Some p -> nth_error dl k = Some (p - base, d) ->
+            nth_N offsets t = Some tv -> (Z.of_N p + 3 + disp = Z.of_N tv)%Z ->
+            nth_error (starts dl bs) (N.to_nat t) = Some (tv - base) /\
+            (Z.of_N (p - base) + 3 + disp = Z.of_N (tv - base))%Z).
+  { intros k t o Hk p d tv disp Hp Hdk Htv Heq.
+    assert (base <= p) by (apply Hge; eapply nth_error_In; eauto).
+    assert (base <= tv) by (apply Hge; eapply nth_N_In; eauto).
+    split; [|lia].
+    unfold starts. rewrite <- Hst. rewrite nth_N_nth_error in Htv.
+    rewrite nth_error_map, Htv. reflexivity. }
+  split.
+  - intros k t Hk. destruct (decoded_nth _ _ _ _ _ Hdd _ _ Hk) as [p [d [Hp [Hdk [b Hn]]]]].
+    cbn [normal_form] in Hn. destruct Hn as [tv [disp [Htv [Heq Hdd']]]]. subst d.
+    destruct (Hgen k t _ Hk p _ tv disp Hp Hdk Htv Heq) as [G1 G2].
+    exists (p - base), disp, (tv - base). auto.
+  - intros k t Hk. destruct (decoded_nth _ _ _ _ _ Hdd _ _ Hk) as [p [d [Hp [Hdk [b Hn]]]]].
+    cbn [normal_form] in Hn. destruct Hn as [tv [disp [Htv [Heq Hdd']]]]. subst d.
+    destruct (Hgen k t _ Hk p _ tv disp Hp Hdk Htv Heq) as [G1 G2].
+    exists (p - base), disp, (tv - base). auto.
+Qed.
+
+(* exact behaviour of the two branch arms, including the two failure modes *)
+Theorem branch_write_spec dbg e uo refs offsets pos t :
+  pos + 3 < 2 ^ 63 -> Forall (fun x => x < 2 ^ 63) offsets ->
+  let result (opc : N) :=
+    match nth_N offsets t with
+    | None => Panic                                   (* `offsets[target]` out of range *)
+    | Some tv =>
+        let d := (Z.of_N tv - (Z.of_N pos + 3))%Z in
+        if in_signed 16 d then Ok (n2b opc :: enc_un 2 (e_be e) (of_signed 16 d), [])
+        else Err WValueTooLarge
+    end in
+  write_op dbg e uo refs offsets pos (WoSkip t) = result 47 /\
+  write_op dbg e uo refs offsets pos (WoBranch t) = result 40.
+Proof.
+  intros Hp Ho. cbv zeta. cbn [write_op]. unfold only.
+  rewrite branch_operand_spec;
+    [|lia|intros tv Htv; apply nth_N_In in Htv; rewrite Forall_forall in Ho; apply Ho; exact Htv].
+  destruct (nth_N offsets t) as [tv|]; [|split; reflexivity].
+  cbv zeta. replace (Z.of_N tv - (Z.of_N (pos + 1) + 2))%Z with (Z.of_N tv - (Z.of_N pos + 3))%Z by lia.
+  destruct (in_signed 16 (Z.of_N tv - (Z.of_N pos + 3))); split; reflexivity.
+Qed.
